@@ -10,7 +10,8 @@ def sh(cmd, cwd=None, env=None):
 
 MODES = {'req': ('emit_req_v', 'ReqKernels.v', 'BridgeReq.v'), 'scan': ('emit_scan_v', 'ScanKernels.v', 'BridgeScan.v'),
          'cfg': ('emit_cfgobj_v', 'CfgKernels.v', 'BridgeCfgObj.v'), 'items': ('emit_items_v', 'ItemKernels.v', 'BridgeItems.v'), 'gpsd': ('emit_gpsd_v', 'GpsdKernels.v', 'BridgeGpsd.v'),
-         'valget': ('emit_valget_v', 'ValgetKernels.v', 'BridgeValget.v')}
+         'valget': ('emit_valget_v', 'ValgetKernels.v', 'BridgeValget.v'),
+         'helpers': ('emit_helpers_v', 'HelperKernels.v', 'BridgeHelpers.v')}
 
 
 def one(patch, mode='req'):
@@ -39,13 +40,13 @@ def one(patch, mode='req'):
             # rests on the CfgKeyData kernels and their bridge, generated into the same directory
             shutil.copy(f'{VERIF}/coq/bridge/BridgeCfgObj.v', gen)
             for pre in ('CfgKernels.v', 'BridgeCfgObj.v'):
-                rc, o = sh(f'timeout 300 coqc -w -notation-overridden -Q {VERIF}/coq Ubx -Q . UbxGen {pre}', cwd=gen)
+                rc, o = sh(f'prlimit --as=12000000000 timeout 300 coqc -w -notation-overridden -Q {VERIF}/coq Ubx -Q . UbxGen {pre}', cwd=gen)
                 if rc:
                     return 'unavailable: ' + pre + ' does not go through (see --cfg)'
-        rc, o = sh(f'timeout 300 coqc -w -notation-overridden -Q {VERIF}/coq Ubx -Q . UbxGen {kern}', cwd=gen)
+        rc, o = sh(f'prlimit --as=12000000000 timeout 300 coqc -w -notation-overridden -Q {VERIF}/coq Ubx -Q . UbxGen {kern}', cwd=gen)
         if rc: return 'unavailable: generated file does not type-check: ' + o[-160:].replace('\n', ' ')
         shutil.copy(f'{VERIF}/coq/bridge/{bridge}', gen)
-        rc, o = sh(f'timeout 600 coqc -w -notation-overridden -Q {VERIF}/coq Ubx -Q . UbxGen {bridge}', cwd=gen)
+        rc, o = sh(f'prlimit --as=12000000000 timeout 600 coqc -w -notation-overridden -Q {VERIF}/coq Ubx -Q . UbxGen {bridge}', cwd=gen)
         if rc:
             import re
             m = re.search(r'File "./Bridge\w+.v", line (\d+)', o)
@@ -56,6 +57,6 @@ def one(patch, mode='req'):
         shutil.rmtree(gen, ignore_errors=True)
 
 if __name__ == '__main__':
-    mode = 'scan' if '--scan' in sys.argv else 'cfg' if '--cfg' in sys.argv else 'items' if '--items' in sys.argv else 'gpsd' if '--gpsd' in sys.argv else 'valget' if '--valget' in sys.argv else 'req'
+    mode = 'scan' if '--scan' in sys.argv else 'cfg' if '--cfg' in sys.argv else 'items' if '--items' in sys.argv else 'gpsd' if '--gpsd' in sys.argv else 'valget' if '--valget' in sys.argv else 'helpers' if '--helpers' in sys.argv else 'req'
     for p in [a for a in sys.argv[1:] if not a.startswith('--')]:
         print(p, '->', one(os.path.abspath(p), mode), flush=True)
